@@ -486,3 +486,125 @@ func TestC02DotNewline(t *testing.T) {
 	}
 	run.Exhaustive()
 }
+
+// TestC02Long: formulas that are long rather than deep. The grammar puts no
+// bound on how many assignments, list elements, operands or arguments a
+// formula has.
+func TestC02Long(t *testing.T) {
+	run := h.Begin("C02", "long", "rapid: formulas with 60..500 small generated items in a flat construct (comma sequence, array elements, call arguments, one left-associative operator chain, a chain mixing all binary operators) and right-nested / prefix / parenthesis chains of up to 60 links, optionally after a run of assignments; oracle: the generated tree itself, cross-checked with the reference parser; non-trivial: >=100 items or >=30 links; distinct by text")
+	defer run.End(t)
+	h.RapidSetup(h.N(250, 40000), "c02long")
+	rapid.Check(t, func(rt *rapid.T) {
+		shape := rapid.IntRange(0, 8).Draw(rt, "shape")
+		n := rapid.IntRange(60, 500).Draw(rt, "n")
+		if shape >= 5 {
+			n = rapid.IntRange(10, 60).Draw(rt, "links")
+		}
+		item := func(min int) *ref.Node {
+			return genExpr(rt, &syntaxCfg, rapid.IntRange(0, 2).Draw(rt, "depth"), min)
+		}
+		var ast *ref.Node
+		switch shape {
+		case 0: // e1, e2, ..., en
+			ast = item(ref.LvAssign)
+			for i := 1; i < n; i++ {
+				ast = &ref.Node{Kind: "bin", Op: ",", Kids: []*ref.Node{ast, item(ref.LvAssign)}}
+			}
+		case 1:
+			ast = &ref.Node{Kind: "arr"}
+			for i := 0; i < n; i++ {
+				ast.Kids = append(ast.Kids, item(ref.LvAssign))
+			}
+		case 2:
+			ast = &ref.Node{Kind: "call", Kids: []*ref.Node{{Kind: "id", Val: "f"}}}
+			for i := 0; i < n; i++ {
+				ast.Kids = append(ast.Kids, item(ref.LvAssign))
+			}
+		case 3: // one operator, left-associative
+			op := rapid.SampledFrom(ref.BinOps).Draw(rt, "op")
+			lv := ref.BinLevel[op]
+			ast = item(lv)
+			for i := 1; i < n; i++ {
+				ast = &ref.Node{Kind: "bin", Op: op, Kids: []*ref.Node{atLevel(ast, lv), item(lv + 1)}}
+			}
+		case 4: // every operator, no parentheses: grouped by the ladder alone
+			operands := []*ref.Node{item(ref.LvUnary)}
+			var ops []string
+			for i := 1; i < n; i++ {
+				ops = append(ops, rapid.SampledFrom(ref.BinOps).Draw(rt, "op"))
+				operands = append(operands, item(ref.LvUnary))
+			}
+			pos := 0
+			var climb func(min int) *ref.Node
+			climb = func(min int) *ref.Node {
+				lhs := operands[pos]
+				pos++
+				for pos-1 < len(ops) && ref.BinLevel[ops[pos-1]] >= min {
+					op := ops[pos-1]
+					lhs = &ref.Node{Kind: "bin", Op: op, Kids: []*ref.Node{lhs, climb(ref.BinLevel[op] + 1)}}
+				}
+				return lhs
+			}
+			ast = climb(0)
+		case 5: // $a = $b = ... = e
+			ast = item(ref.LvAssign)
+			for i := 0; i < n; i++ {
+				ast = &ref.Node{Kind: "bin", Op: "=", Kids: []*ref.Node{{Kind: "id", Val: fmt.Sprintf("$v%d", i)}, ast}}
+			}
+		case 6: // c1 ? x1 : c2 ? x2 : ...
+			ast = item(ref.LvAssign)
+			for i := 0; i < n; i++ {
+				ast = &ref.Node{Kind: "cond", Kids: []*ref.Node{item(2), item(ref.LvAssign), ast}}
+			}
+		case 7:
+			ast = item(ref.LvUnary)
+			for i := 0; i < n; i++ {
+				if rapid.IntRange(0, 5).Draw(rt, "typeof") == 0 {
+					ast = &ref.Node{Kind: "typeof", Kids: []*ref.Node{ast}}
+				} else {
+					ast = &ref.Node{Kind: "pre", Op: rapid.SampledFrom(ref.PrefixOps).Draw(rt, "pre"), Kids: []*ref.Node{ast}}
+				}
+			}
+		default:
+			ast = item(ref.LvComma)
+			for i := 0; i < n; i++ {
+				switch rapid.IntRange(0, 2).Draw(rt, "wrap") {
+				case 0:
+					ast = paren(ast)
+				case 1:
+					ast = &ref.Node{Kind: "arr", Kids: []*ref.Node{atLevel(ast, ref.LvAssign)}}
+				default:
+					ast = &ref.Node{Kind: "call", Kids: []*ref.Node{{Kind: "id", Val: "f"}, atLevel(ast, ref.LvAssign)}}
+				}
+			}
+		}
+		// optionally after a run of assignments
+		if k := rapid.SampledFrom([]int{0, 0, 70, 130, 260}).Draw(rt, "assignments"); k > 0 {
+			var pre *ref.Node
+			for i := 0; i < k; i++ {
+				a := &ref.Node{Kind: "bin", Op: "=", Kids: []*ref.Node{{Kind: "id", Val: fmt.Sprintf("$w%d", i)}, item(ref.LvAssign)}}
+				if pre == nil {
+					pre = a
+				} else {
+					pre = &ref.Node{Kind: "bin", Op: ",", Kids: []*ref.Node{pre, a}}
+				}
+			}
+			ast = &ref.Node{Kind: "bin", Op: ",", Kids: []*ref.Node{pre, atLevel(ast, ref.LvAssign)}}
+			n += k
+		}
+		toks := ast.Flatten()
+		text := ref.Join(toks, genLayout(rt, toks, rapid.IntRange(0, 2).Draw(rt, "nlw")))
+		expect := ast.Dump()
+		run.CountKey(text, (shape < 5 && n >= 100) || (shape >= 5 && n >= 30), fmt.Sprintf("shape%d", shape))
+		if len(text) < 400 {
+			run.Sample("long", text)
+		}
+		if msg := checkGrammar(text, expect); msg != "" {
+			if len(msg) > 1500 {
+				msg = msg[:700] + " ... " + msg[len(msg)-700:]
+			}
+			run.Pending("long", "c02", mkTextCase(text, expect), msg)
+			rt.Fatalf("%s", msg)
+		}
+	})
+}
